@@ -561,8 +561,10 @@ def check(prop, tier, seed, runs_override=None, workers=None, repo="/repo", time
                      "simulation samples schedules/faults/histories; a clean batch is evidence, not proof"],
         wall_s=round(wall, 2), violations=n_new, known_findings=len(known_hits), build_s=round(build_s, 2),
     )
-    os.makedirs(os.path.join(VERIF, "evidence"), exist_ok=True)
-    json.dump(ev, open(os.path.join(VERIF, "evidence", prop + ".json"), "w"), indent=1)
+    # evidence is only ever written for the real tree; runs against scratch copies leave it alone
+    evdir = os.path.join(VERIF, "evidence") if os.path.realpath(repo) == "/repo" else os.path.join(VERIF, "work", "evidence-scratch")
+    os.makedirs(evdir, exist_ok=True)
+    json.dump(ev, open(os.path.join(evdir, prop + ".json"), "w"), indent=1)
     for l in lines:
         print(l)
     print("check.py: property=%s tier=%s seed=%d runs=%d evaluations=%d distinct=%d wall=%.1fs exit=%d" % (
